@@ -313,6 +313,13 @@ class RecheckCheck:
                 gs.insert(0, {"scale": scale, "B": B, "P": P, "shape": "D3x",
                               "sizes_list": [v], "cids": [0, 0, 0],
                               "seed": seed, "tier": tier, "maxdmg": 1})
+        # payloads whose piece string / pieces roots are well-formed UTF-8 text
+        # (a decoder that returns text-like byte strings as str answers
+        # differently for them), library and command line
+        for sh, v, cids in world.text_like_worlds():
+            gs.insert(0, {"scale": "R", "B": REAL_B, "P": 16384, "shape": sh,
+                          "sizes_list": [v], "cids": cids, "seed": seed,
+                          "tier": tier, "maxdmg": 1, "allcli": True})
         # a large piece length over files of several MiB (thresholds in bytes)
         MiB = 1 << 20
         for P in ([1 << 23] if quick else [1 << 22, 1 << 23]):
